@@ -344,6 +344,42 @@ def r6_error_ranges(repo, report):
         ok = bool(L) and bool(R) and L.endswith(".effective_length") and R.endswith(".max_error_rate") and L.rsplit(".", 1)[0] == R.rsplit(".", 1)[0]
         report.ob("C20.R6", f"{q}: ErrorRanges arguments", ok, facts={"length": L, "error_rate": R}, expected="length=<end>.effective_length, error_rate=<end>.max_error_rate", loc=repo.loc(c),
                   why="" if ok else "the allowed-error table is not built from the number of non-N adapter bases")
+    # per-end values of the JSON report are computed afresh for every end (nothing is carried over from the previous end)
+    c0, js = repo.need_method("Statistics", "_adapter_statistics_as_json")
+    loops = [n for n in ast.walk(js) if isinstance(n, ast.For) and isinstance(n.iter, ast.Call) and (chain(n.iter.func) or "").endswith(".end_statistics")]
+    if len(loops) != 1:
+        report.unrecognised("C20.R6", "_adapter_statistics_as_json: per-end loop", "loop over end_statistics() not found", repo.loc(js))
+    else:
+        lp = loops[0]
+        assigned_in_loop = {x.id for st in lp.body for x in ast.walk(st) if isinstance(x, ast.Name) and isinstance(x.ctx, ast.Store)}
+
+        def definitely(stmts, name):
+            for st in stmts:
+                if isinstance(st, (ast.Assign, ast.AnnAssign)) and getattr(st, "value", None) is not None:
+                    ts = st.targets if isinstance(st, ast.Assign) else [st.target]
+                    if any(isinstance(x, ast.Name) and x.id == name for t in ts for x in ast.walk(t)):
+                        return True
+                if isinstance(st, ast.If) and st.orelse and definitely(st.body, name) and definitely(st.orelse, name):
+                    return True
+                if isinstance(st, (ast.If,)) and st.body and isinstance(st.body[-1], (ast.Continue, ast.Break, ast.Return, ast.Raise)) and False:
+                    return False
+            return False
+
+        stale = []
+        for i, st in enumerate(lp.body):
+            for x in ast.walk(st):
+                if isinstance(x, ast.Name) and isinstance(x.ctx, ast.Load) and x.id in assigned_in_loop:
+                    # assigned earlier in this iteration on every path?
+                    if not definitely(lp.body[:i], x.id) and not (isinstance(st, (ast.Assign, ast.AugAssign)) and False):
+                        # reading a variable in the statement that (conditionally) assigns it is fine only for accumulators: x += ..
+                        if isinstance(st, ast.AugAssign) and isinstance(st.target, ast.Name) and st.target.id == x.id:
+                            continue
+                        inner_bound = any(isinstance(y, (ast.comprehension, ast.For)) and any(isinstance(z, ast.Name) and z.id == x.id for z in ast.walk(y.target)) for y in ast.walk(st))
+                        if not inner_bound and x.id not in stale:
+                            stale.append(x.id)
+        report.ob("C20.R6", "_adapter_statistics_as_json: per-end values are not carried over between ends", not stale, facts={"read_before_assigned_in_the_iteration": stale},
+                  expected="every variable the per-end record is built from is assigned on every path of the same iteration (e.g. eranges = ... if allows_partial_matches else None)", loc=repo.loc(lp),
+                  why=(f"'{stale[0]}' is assigned only on some paths of an iteration: for an end that does not take that path the value of the previous end is reported" if stale else ""))
     # EndStatistics takes both from the adapter
     c, init = repo.need_method("EndStatistics", "__init__")
     ap = params(init)[1]
